@@ -2,8 +2,8 @@ import ShVerif.Model.C27
 /-
   Line protocol for C27.
 
-    run|runfx <bg> <base> <dir> <nopts> <op>* | <op>*     heap-shape dump of parent and child after the ops
-    spec|specfx <bg> <base> <dir> <nopts> <op>* | <op>*   the SPECIFICATION: the parent's observable state
+    run|runfx <bg> <base> <dir> <optbits> <op>* | <op>*     heap-shape dump of parent and child after the ops
+    spec|specfx <bg> <base> <dir> <optbits> <op>* | <op>*   the SPECIFICATION: the parent's observable state
                                                    as it was *before* the subshell ran (the impl
                                                    answers with the state *after*)
     growtab s|i <n>                                the growth policy the driver uses as oracle
@@ -221,9 +221,20 @@ def showChain (shape : Bool) (h : Heap) : Nat → Cl → PRef → Cl × List Str
       let (cl, rest) := showChain shape h fuel cl o.parent
       (cl, (head ++ "(" ++ vars ++ ")") :: rest)
 
+/-- Does the chain end in the Runner's root Env (false for background copies)? -/
+def reachesBase (h : Heap) : Nat → PRef → Bool
+  | 0, _ => false
+  | _ + 1, .nil => false
+  | _ + 1, .base => true
+  | fuel + 1, .ov id =>
+    match h.scopes[id]? with
+    | none => false
+    | some o => reachesBase h fuel o.parent
+
 def showRunner (shape : Bool) (h : Heap) (cl : Cl) (r : Runner) : Cl × String :=
   let (cl, chain) := showChain shape h (fuelOf h.scopes) cl (.ov r.env)
-  let base := commaSep (r.base.map fun (k, v) => toHex k ++ "=" ++ toHex v)
+  let base := if reachesBase h (fuelOf h.scopes) (.ov r.env) then
+    commaSep (r.base.map fun (k, v) => toHex k ++ "=" ++ toHex v) else ""
   let (cl, par) := showStrSlice shape h cl r.params (hideEmptyClass := true)
   let (cl, ds) := showStrSlice shape h cl r.dirStack
   let opts := String.join (r.opts.map bit)
@@ -252,7 +263,7 @@ structure Case where
   bg : Bool
   base : List (Bytes × Bytes)
   dir : Bytes
-  nopts : Nat
+  opts : List Bool
   setup : List Op
   child : List Op
 
@@ -262,16 +273,16 @@ def parseCase (args : List String) : Option Case :=
     let bg ← parseBool bg
     let base ← parseBase base
     let dir ← ofHex dir
-    let nopts ← nopts.toNat?
+    let opts ← nopts.toList.mapM fun c => if c = '1' then some true else if c = '0' then some false else none
     let setupToks := rest.takeWhile (· ≠ "|")
     let childToks := (rest.dropWhile (· ≠ "|")).drop 1
     let setup ← setupToks.mapM parseOp
     let child ← childToks.mapM parseOp
-    pure { bg, base, dir, nopts, setup, child }
+    pure { bg, base, dir, opts, setup, child }
   | _ => none
 
 def runCase (fx spec : Bool) (c : Case) : String :=
-  match initState c.base c.dir c.nopts with
+  match initState c.base c.dir c.opts with
   | none => "panic-init"
   | some (h, r) =>
     match run fx goGrows h r c.setup with
